@@ -1,10 +1,6 @@
 import QuicModel.Codec.VarInt
-import QuicModel.Dc.KeyIds
-import QuicModel.Dc.ReplayWindow
 import QuicModel.Driver
 import QuicModel.Drivers.All
-import QuicModel.Drivers.DcReplay
 import QuicModel.Drivers.VarInt
-import QuicModel.Generated.DcReplay
 import QuicModel.Generated.VarInt
 import QuicModel.Prelude
